@@ -38,7 +38,7 @@ def gen_cases(tier, seed):
                     sets.append([p, rng.choice(poss), rng.choice(poss)])
             for cps in sets:
                 k += 1
-                cases.append({"tree": t, "pos": p, "cps": cps, "cls": ["any", "light", "mixin"][k % 3],
+                cases.append({"tree": t, "pos": p, "cps": cps, "cls": ["any", "light", "mixin", "symmix"][k % 4],
                               "how": "direct" if k % 4 else "history", "seed": k})
     nexh = len(cases)
     nrand = 1500 if tier == "quick" else 15000
@@ -47,7 +47,7 @@ def gen_cases(tier, seed):
         poss = [p for p, _ in gen.subtrees(t)]
         p = rng.choice(poss)
         cps = [rng.choice(poss) for _ in range(rng.randint(0, 4))]
-        cases.append({"tree": t, "pos": p, "cps": cps, "cls": rng.choice(["any", "light", "mixin"]),
+        cases.append({"tree": t, "pos": p, "cps": cps, "cls": rng.choice(["any", "light", "mixin", "symmix"]),
                       "how": rng.choice(["direct", "history"]), "seed": i})
     dist = {"exhaustive_cases": nexh, "random_cases": nrand, "via_mutation_history": sum(1 for c in cases if c["how"] == "history"),
             "by_class": {}}
